@@ -45,6 +45,9 @@ def gen(ctx):
 
 
 def random_coord(rng, lim):
+    if lim == "sdf-wide":
+        # the whole width of the SDF 10.4f field: -9999.9999 .. 99999.9999
+        return rng.choice([rng.uniform(-9999.9, 99999.9), rng.uniform(9999.99995, 99999.99), rng.uniform(-9999.99, -999.9), 99999.9999, 10000.0, 9999.99996])
     k = rng.random()
     if k < 0.15:
         return rng.choice([0.0, -0.0, 0.00005, -0.00005, 0.00015, 1.00005, -2.5, 0.5, 9999.9999 if lim >= 1e4 else 99.5, -999.99995, 1e-13, -1e-13, 123.45675])
@@ -171,7 +174,7 @@ def check_molecule(m, zs, pos, rng, tmp, with_bonds):
     if not np.allclose(m2.positions, pos, rtol=0, atol=0.51e-12 + 1e-16 * np.abs(pos).max()):
         return f"xyz: coordinates differ by {np.abs(m2.positions - pos).max():.3g} (> 1e-12 precision of the format)"
     # the format named explicitly (fmt=) decides, for writing and for reading alike, whatever the file is called
-    for name, fmt in (("as_xyz.sdf", "xyz"), ("as_xyz.dat", "xyz"), ("noext", ".xyz"), ("coord", "xyz"), ("control", "xyz")) + ((("as_sdf.xyz", "sdf"), ("coord", "sdf")) if np.abs(pos).max() < 9999.99994 else ()):
+    for name, fmt in (("as_xyz.sdf", "xyz"), ("as_xyz.dat", "xyz"), ("noext", ".xyz"), ("coord", "xyz"), ("control", "xyz")) + ((("as_sdf.xyz", "sdf"), ("coord", "sdf")) if (pos.max() < 99999.99994 and pos.min() > -9999.99994) else ()):
         pf = os.path.join(tmp, name)
         try:
             m.save(pf, fmt=fmt)
@@ -190,7 +193,7 @@ def check_molecule(m, zs, pos, rng, tmp, with_bonds):
     if [int(z) for z in m3.atomic_numbers] != zs or not np.allclose(m3.positions, m2.positions, rtol=0, atol=1e-12):
         return "xyz: reading is not insensitive to letter case / runs of blanks"
     # SDF (coordinates within the 10.4f range only)
-    if np.abs(pos).max() < 9999.99994:
+    if (pos.max() < 99999.99994 and pos.min() > -9999.99994):
         p = os.path.join(tmp, stem + rng.choice([".sdf", ".SDF", ".sdf"]))
         m.save(p)
         text = open(p).read()
@@ -244,7 +247,7 @@ def judge(seed, nmax, with_bonds):
     rng = random.Random(seed)
     tmp = tempfile.mkdtemp(prefix="chmpy_c16_")
     try:
-        m, zs, pos = random_molecule(rng, nmax, rng.choice([9e3, 9e3, 9e3, 9e3, 9e5, 9e6, 9e8]))
+        m, zs, pos = random_molecule(rng, nmax, rng.choice([9e3, 9e3, 9e3, 9e3, 9e5, 9e6, 9e8, "sdf-wide", "sdf-wide"]))
         try:
             return check_molecule(m, zs, pos, rng, tmp, with_bonds), len(zs)
         except Exception as ex:  # noqa
